@@ -230,6 +230,14 @@ impl<S: BarrierSemantics> ObjectBarrier<S> {
     }
 }
 
+#[cfg(feature = "mmtk_verif")]
+impl<S: BarrierSemantics> ObjectBarrier<S> {
+    /// Verification hook: the private [`ObjectBarrier::log_object`].
+    pub fn verif_log_object(&self, object: ObjectReference) -> bool {
+        self.log_object(object)
+    }
+}
+
 impl<S: BarrierSemantics> Barrier<S::VM> for ObjectBarrier<S> {
     fn flush(&mut self) {
         self.semantics.flush();
